@@ -144,9 +144,14 @@ def strip_comments(text):
     return ''.join(out)
 
 
-def step_audit():
+def step_audit(rel_files=None):
+    """forbidden constructs in the Coq files the property's theorems and driver depend on (their import
+    closure); with rel_files=None the whole development"""
     hits = []
+    only = None if rel_files is None else import_closure(rel_files)
     for p in sorted(COQ.rglob('*.v')):
+        if only is not None and str(p.relative_to(COQ)) not in only:
+            continue
         text = strip_comments(p.read_text())
         for rx, what in FORBIDDEN:
             for m in rx.finditer(text):
@@ -490,7 +495,7 @@ def _main_check(prop, cfg, tier, seed, replay=None):
         else:
             log('gen: a translator module failed, but none whose output this property imports')
             ok_gen = True
-    audit_hits = step_audit()
+    audit_hits = step_audit([cfg['props'], cfg['driver']])
 
     targets = [cfg['props'][:-2] + '.vo', cfg['driver'][:-2] + '.vo']
     ok_make, make_out = step_make(targets)
